@@ -33,3 +33,8 @@ claim("C13",
       "All histories (quick L=3..4, thorough L=4..5; families txt/rtx/uni/arr/map/nest/xml; 1..2 replicas with causal syncs) are executed; a snapshot and the visible dump are recorded after every prefix, and at every later state encode_state_from_snapshot (v1 and v2) is applied to a fresh document whose dump must equal the recorded one; snapshot encode/decode round-trips; a gc-enabled twin must refuse with an error.",
       "snapshots taken without pending updates; restore target has formatting clean-up off",
       "DESIGN.md 4/C13")
+claim("C16",
+      "complete enumeration of a bounded universe: BFS over construction sequences + every ordered pair of values, against a bit-set model, with a canonical-form oracle",
+      "Universe 2 clients x clocks 0..N (quick N=3..4, thorough N=5: 4096^2 = 16.8M pairs). Every construction sequence of <= k operations (BFS on set values), every ordered pair of sets for the binary operations, every IdMap value over attributes {A,B} (BFS + every pair), from_iter over every <= 2-range list, and snapshot().delete_set against the hook dump on every document state of txt/map/nest histories; each result must equal the model point-wise AND be in canonical form (sorted, disjoint, non-empty, coalesced, no empty client entry, equal sets ==/hash/encode equal).",
+      "model is BTreeSet/BTreeMap of points; IdMap attribute values fixed strings",
+      "DESIGN.md 4/C16")
